@@ -4,20 +4,42 @@ import Xrl.Props.C19d
 
 Plain lines (direct lookup, `KO_LINE`/`KP_LINE` remapped), the K-alpha / K-beta means (loops of 3 and 26 turns with `continue`, related by
 `JRel.loop_then`, no unrolling), `LA_LINE` and the seven doublet macros through `LineEnergyComposed` (recursion with fuel on both sides; the
-Java side spends one unit more per level because of `LineEnergy_catch`).  `LB_LINE` is not covered here: see W10 in notes/C19M_REPORT.md.
+Java side spends one unit more per level because of `LineEnergy_catch`), and `LB_LINE`: the 13-member loop with `continue` on a missing
+member energy and the plain-mean fallback, related turn by turn (`JRel.loop_then`); its members are 12 plain lines and the composed
+`L3O45_LINE`, which is why the Java side needs 6 units of fuel (`FUEL`) there.  `LB_LINE` goes through `CS_FluorLine_catch`, hence the
+two data hypotheses of `java_eqi_c_CS_FluorLine` (`inI32 NE_Photo`, `LGaps`), asked for only when `m = 3`.
 -/
 set_option linter.unusedSimpArgs false
 set_option linter.unusedVariables false
 set_option linter.unusedSectionVars false
 namespace Xrl
 namespace C19
-section lineenergy
-variable (T : Tables ℝ) (Z : Int) (hZ : inI32 Z) (m : Int) (hm : inI32 m) (s : Slot) (hs : s.isFull = false)
-include hZ hm hs
-
 /-- the lines that are looked up directly (incl. `KO_LINE`, `KP_LINE`, remapped to their first member) -/
 def PlainLine (m : Int) : Prop :=
   m ≠ 0 ∧ m ≠ 1 ∧ m ≠ 2 ∧ m ≠ 3 ∧ m ≠ -43 ∧ m ≠ -49 ∧ m ≠ -55 ∧ m ≠ -81 ∧ m ≠ -102 ∧ m ≠ -108 ∧ m ≠ -111
+
+/-- the Java list of (line, shell) pairs is the C pair of arrays, index by index -/
+theorem lb_pairs_eq : JStatic.lb_pairs = (List.range 13).map (fun k => (Static.lb_pairs_line k, Static.lb_pairs_shell k)) := by
+  decide
+
+theorem jforEach_lb_pairs {σ : Type} (init : σ) (body : Int × Int → σ → JM σ) :
+    jforEachM JStatic.lb_pairs init body =
+      jloopM 0 13 init (fun i st => body (Static.lb_pairs_line i.toNat, Static.lb_pairs_shell i.toNat) st) := by
+  unfold jforEachM jloopM
+  rw [lb_pairs_eq, List.foldlM_map]
+  simp only [Int.sub_zero, Int.reduceToNat, Int.zero_add, Int.toNat_natCast]
+
+theorem lb_member_facts (i : Int) (h0 : 0 ≤ i) (h1 : i < 13) :
+    inI32 (Static.lb_pairs_line i.toNat) ∧ inI32 (Static.lb_pairs_shell i.toNat) ∧
+      (PlainLine (Static.lb_pairs_line i.toNat) ∨ Static.lb_pairs_line i.toNat = -102) := by
+  have key : ∀ n : Nat, n < 13 → inI32 (Static.lb_pairs_line n) ∧ inI32 (Static.lb_pairs_shell n) ∧
+      (PlainLine (Static.lb_pairs_line n) ∨ Static.lb_pairs_line n = -102) := by
+    unfold PlainLine; decide
+  exact key i.toNat (by omega)
+
+section lineenergy
+variable (T : Tables ℝ) (Z : Int) (hZ : inI32 Z) (m : Int) (hm : inI32 m) (s : Slot) (hs : s.isFull = false)
+include hZ hm hs
 
 theorem line_energy_plain (f : Nat) (hp : PlainLine m) :
     JRel (JGen.LineEnergy_fuel (f + 1) (JTables.ofC T) Z m) (Gen.LineEnergy_fuel (f + 1) T Z m s) s := by
@@ -112,20 +134,26 @@ theorem catchT_LineEnergy_plain (a b : Nat) (hp : PlainLine m) :
   · rw [hc] at hr; cases hr
 
 omit hm in
-/-- `LineEnergyComposed` of two plain lines (LA and the seven doublet macros), with the fuel its caller hands over -/
-theorem line_energy_composed (l1 l2 : Int) (h1 : inI32 l1) (h2 : inI32 l2) (p1 : PlainLine l1) (p2 : PlainLine l2) (f : Nat) :
-    JRel (JGen.LineEnergyComposed_fuel (f + 3) (JTables.ofC T) Z l1 l2) (Gen.LineEnergyComposed_fuel (f + 3) T Z l1 l2 s) s := by
+/-- `LineEnergyComposed` of two plain lines, with independent fuels on the two sides (enough on each for the two member lookups) -/
+theorem line_energy_composed_ab (l1 l2 : Int) (h1 : inI32 l1) (h2 : inI32 l2) (p1 : PlainLine l1) (p2 : PlainLine l2) (a b : Nat) :
+    JRel (JGen.LineEnergyComposed_fuel (b + 3) (JTables.ofC T) Z l1 l2) (Gen.LineEnergyComposed_fuel (a + 2) T Z l1 l2 s) s := by
   unfold JGen.LineEnergyComposed_fuel Gen.LineEnergyComposed_fuel
-  obtain ⟨v1, hc1, hj1⟩ := catchT_LineEnergy_plain T Z hZ l1 h1 (f + 1) f p1
-  obtain ⟨v2, hc2, hj2⟩ := catchT_LineEnergy_plain T Z hZ l2 h2 (f + 1) f p2
+  obtain ⟨v1, hc1, hj1⟩ := catchT_LineEnergy_plain T Z hZ l1 h1 a b p1
+  obtain ⟨v2, hc2, hj2⟩ := catchT_LineEnergy_plain T Z hZ l2 h2 a b p2
   obtain ⟨r1, hr1, hjr1⟩ := catchT_RadRate T Z l1 hZ h1
   obtain ⟨r2, hr2, hjr2⟩ := catchT_RadRate T Z l2 hZ h2
   jeq_norm
   jeq_simp
   by_cases c1 : v1 ≤ 0 <;> by_cases c2 : v2 ≤ 0 <;> jeq_auto
 
-/-- `LineEnergy` for every line macro except `LB_LINE` (see W10 for the L-beta group) -/
-theorem java_eq_c_LineEnergy_fuel (f : Nat) (h3 : m ≠ 3) :
+omit hm in
+/-- `LineEnergyComposed` of two plain lines (LA and the seven doublet macros), with the fuel its caller hands over -/
+theorem line_energy_composed (l1 l2 : Int) (h1 : inI32 l1) (h2 : inI32 l2) (p1 : PlainLine l1) (p2 : PlainLine l2) (f : Nat) :
+    JRel (JGen.LineEnergyComposed_fuel (f + 3) (JTables.ofC T) Z l1 l2) (Gen.LineEnergyComposed_fuel (f + 3) T Z l1 l2 s) s :=
+  line_energy_composed_ab T Z hZ s hs l1 l2 h1 h2 p1 p2 (f + 1) f
+
+/-- `LineEnergy` for every line macro except `LB_LINE` -/
+theorem line_energy_nonLB (f : Nat) (h3 : m ≠ 3) :
     JRel (JGen.LineEnergy_fuel (f + 4) (JTables.ofC T) Z m) (Gen.LineEnergy_fuel (f + 4) T Z m s) s := by
   by_cases c0 : m = 0
   · subst c0; exact line_energy_KA T Z hZ s hs (f + 3)
@@ -205,10 +233,113 @@ theorem java_eq_c_LineEnergy_fuel (f : Nat) (h3 : m ≠ 3) :
     jeq_auto
   exact line_energy_plain T Z hZ m hm s hs (f + 3) ⟨c0, c1, c2, h3, cn43, cn49, cn55, cn81, cn102, cn108, cn111⟩
 
-theorem java_eq_c_LineEnergy (h3 : m ≠ 3) :
+omit hm in
+/-- the composed member `L3O45_LINE` of the L-beta group with the fuels its caller hands over on each side -/
+theorem line_energy_L3O45 (f : Nat) :
+    JRel (JGen.LineEnergy_fuel (f + 4) (JTables.ofC T) Z (-102)) (Gen.LineEnergy_fuel (f + 5) T Z (-102) s) s := by
+  unfold JGen.LineEnergy_fuel Gen.LineEnergy_fuel
+  jeq_norm
+  by_cases hz : Z < 1 ∨ Z > 120
+  · jeq_auto
+  simp only [hz, ↓reduceIte, Int.reduceEq, or_self, or_false, false_or]
+  rcases (line_energy_composed_ab T Z hZ s hs (-101) (-103) (by decide) (by decide) (by unfold PlainLine; decide) (by unfold PlainLine; decide) (f + 2) f).cases with ⟨v, hc, hj⟩ | ⟨e, hc, hj⟩ | ⟨a, b, hc, hj⟩ | ⟨a, hc⟩ <;>
+  jeq_auto
+
+omit hm hs in
+theorem catch_LineEnergy_L3O45 (f : Nat) :
+    JCatchRel (JGen.LineEnergy_catch_fuel (f + 5) (JTables.ofC T) Z (-102)) (Gen.LineEnergy_fuel (f + 5) T Z (-102) Slot.null) := by
+  unfold JGen.LineEnergy_catch_fuel
+  exact JCatchRel.of_rel (line_energy_L3O45 T Z hZ Slot.null rfl f)
+
+omit hm hs in
+/-- a member of the L-beta group as the loop sees it: `LineEnergy_catch(Z, l)` against `LineEnergy(Z, l, NULL)` -/
+theorem catch_LineEnergy_LBmember (f : Nat) (l : Int) (hl : inI32 l) (hp : PlainLine l ∨ l = -102) :
+    JCatchRel (JGen.LineEnergy_catch_fuel (f + 5) (JTables.ofC T) Z l) (Gen.LineEnergy_fuel (f + 5) T Z l Slot.null) := by
+  rcases hp with hp | rfl
+  · obtain ⟨v, hc, hj⟩ := catchT_LineEnergy_plain T Z hZ l hl (f + 4) (f + 3) hp
+    rw [hc, hj]; exact ⟨rfl, rfl⟩
+  · exact catch_LineEnergy_L3O45 T Z hZ f
+
+omit hm in
+/-- `LB_LINE`: both loops skip a member without energy, weigh the others with `CS_FluorLine` just above the edge, and fall back to the plain mean -/
+theorem line_energy_LB (f : Nat) (hN : inI32 (T.NE_Photo Z.toNat)) (hg : LGaps T Z) :
+    JRel (JGen.LineEnergy_fuel (f + 6) (JTables.ofC T) Z 3) (Gen.LineEnergy_fuel (f + 6) T Z 3 s) s := by
+  unfold JGen.LineEnergy_fuel Gen.LineEnergy_fuel
+  jeq_norm
+  by_cases hz : Z < 1 ∨ Z > 120
+  · jeq_auto
+  simp only [hz, ↓reduceIte, Int.reduceEq, or_self, or_false, false_or]
+  rw [jforEach_lb_pairs]
+  apply JRel.loop_then (fun _ => True) trivial
+  · intro i st h0 h1 _
+    refine ⟨?_, fun _ _ => trivial⟩
+    obtain ⟨hl, hsh, hp⟩ := lb_member_facts i h0 h1
+    simp (disch := omega) only [rd1_ok, jbind_ok, bind_ok, jpure_eq_ok, pure_eq_ok]
+    generalize Static.lb_pairs_line i.toNat = l at hl hp ⊢
+    generalize Static.lb_pairs_shell i.toNat = sh at hsh ⊢
+    rcases (catch_LineEnergy_LBmember T Z hZ f l hl hp).cases with ⟨v, hc, hj⟩ | ⟨a, b, hc, hj⟩ | ⟨a, hc⟩
+    rotate_left
+    · rw [hc, hj]; exact StepRel.nf
+    · rw [hc]; exact StepRel.ub
+    rw [hc, hj]
+    simp only [jbind_ok, bind_ok]
+    by_cases hv : v ≤ 0
+    · simp only [hv, ↓reduceIte, zero_lit]; exact StepRel.ok
+    obtain ⟨e, hce, hje⟩ := catchT_EdgeEnergy T Z sh hZ hsh
+    simp only [hv, ↓reduceIte, zero_lit, hce, hje, jbind_ok, bind_ok]
+    have hfl : JCatchRel (JGen.CS_FluorLine_catch (JTables.ofC T) Z l (e + 0.1)) (Gen.CS_FluorLine T Z l (e + 0.1) Slot.null) := by
+      unfold JGen.CS_FluorLine_catch
+      exact JCatchRel.of_relI (java_eqi_c_CS_FluorLine T Z hZ l hl (e + 0.1) Slot.null rfl hN hg)
+    rcases hfl.cases with ⟨w, hc2, hj2⟩ | ⟨a, b, hc2, hj2⟩ | ⟨a, hc2⟩
+    · rw [hc2, hj2]; exact StepRel.ok
+    · rw [hc2, hj2]; exact StepRel.nf
+    · rw [hc2]; exact StepRel.ub
+  · intro st _
+    jeq_auto
+
+/-- `LineEnergy` for every line and every line macro.  `hN`/`hg` (the hypotheses of `java_eqi_c_CS_FluorLine`) are needed for `LB_LINE` only. -/
+theorem java_eq_c_LineEnergy_fuel (f : Nat) (hN : m = 3 → inI32 (T.NE_Photo Z.toNat)) (hg : m = 3 → LGaps T Z) :
+    JRel (JGen.LineEnergy_fuel (f + 6) (JTables.ofC T) Z m) (Gen.LineEnergy_fuel (f + 6) T Z m s) s := by
+  by_cases h3 : m = 3
+  · subst h3; exact line_energy_LB T Z hZ s hs f (hN rfl) (hg rfl)
+  · exact line_energy_nonLB T Z hZ m hm s hs (f + 2) h3
+
+theorem java_eq_c_LineEnergy (hN : m = 3 → inI32 (T.NE_Photo Z.toNat)) (hg : m = 3 → LGaps T Z) :
     JRel (JGen.LineEnergy (JTables.ofC T) Z m) (Gen.LineEnergy T Z m s) s := by
   unfold JGen.LineEnergy Gen.LineEnergy FUEL
-  exact java_eq_c_LineEnergy_fuel T Z hZ m hm s hs 2 h3
+  exact java_eq_c_LineEnergy_fuel T Z hZ m hm s hs 0 hN hg
 end lineenergy
+
+/-! ## the hypotheses of C19b–C19e can be met (on the empty tables `T0`, element 26) -/
+theorem T0_edge_catch (k : Int) (h0 : 0 ≤ k) (h1 : k < 28) : JGen.EdgeEnergy_catch (JTables.ofC T0) 26 k = .ok 0 := by
+  jeq_startJ JGen.EdgeEnergy_catch JGen.EdgeEnergy
+  have hk : ¬ (k < 0 ∨ k ≥ 28) := by omega
+  jeq_simp
+  have e : T0.EdgeEnergy_arr = fun _ _ => (0 : ℝ) := rfl
+  simp [e, jtry]
+theorem LGaps_T0 : LGaps T0 26 := by
+  constructor <;> intro x _ <;> exact T0_edge_catch _ (by decide) (by decide)
+theorem KAllOk_T0 : KAllOk T0 26 := by
+  constructor
+  · intro k _ _; exact ⟨by show inI32 0; decide, fun _ => rfl, fun _ => rfl⟩
+  · intro k _ _; show (0:ℝ) ≤ 1.0e-6; norm_num
+theorem JTame_T0 (k : Int) (h0 : 0 ≤ k) (h1 : k < 9) (E : ℝ) : JTame (JGen.CS_Photo_Partial (JTables.ofC T0) 26 k E) := by
+  right
+  jeq_startJ JGen.CS_Photo_Partial JGen.CSb_Photo_Partial
+  have hk : ¬ (k < 0 ∨ k ≥ 31) := by omega
+  by_cases hE : E ≤ 0
+  · jeq_simp; exact ⟨_, rfl⟩
+  jeq_simp
+  have e : T0.Electron_Config_Kissel = fun _ _ => (0 : ℝ) := rfl
+  have p : (0:ℝ) < 10e-7 := by norm_num
+  simp only [e, p, ↓reduceIte, jbind_ok, jbind_error]
+  exact ⟨_, rfl⟩
+example : inI32 (T0.NE_Photo (26 : Int).toNat) := by decide
+/-- the L-beta statement with all its hypotheses discharged -/
+example : JRel (JGen.LineEnergy (JTables.ofC T0) 26 3) (Gen.LineEnergy T0 26 3 Slot.empty) Slot.empty :=
+  java_eq_c_LineEnergy T0 26 (by decide) 3 (by decide) Slot.empty rfl (fun _ => by decide) (fun _ => LGaps_T0)
+/-- and a Kissel statement with `KAllOk` and `JTame` discharged -/
+example (E : ℝ) : JRel (JGen.CS_FluorShell_Kissel_no_Cascade (JTables.ofC T0) 26 0 E) (Gen.CS_FluorShell_Kissel_no_Cascade T0 26 0 E Slot.empty) Slot.empty :=
+  java_eq_c_CS_FluorShell_Kissel_no_Cascade T0 26 (by decide) 0 (by decide) E Slot.empty rfl KAllOk_T0 (fun k h0 h1 => JTame_T0 k h0 h1 E)
 end C19
 end Xrl
